@@ -186,6 +186,18 @@ CHECKS = {
              'import / exec audit event may fire while eval runs.',
         note='trusted: sys.addaudithook sees the listed activities; shape abstraction (type tree to depth 3) decides what is "new"',
         design='4/C02'),
+    'C01': dict(
+        engine='E2+E3',
+        technique='exhaustive sweep of EVERY budget 1..K+2 for every driver program and construct shape, K counted from outside by a '
+                  'node-evaluation tracer; all eval-call sequences up to length 2/3 over a shared names mapping with budgets around K',
+        text='For every driver (all 13 node kinds; lambdas called directly, recursively, through map/filter/reduce/sorted, through '
+             're-entrant and error-swallowing host callbacks, through ast_names; with and without a parse cache) and every construct '
+             'shape, K is measured by the external tracer and every budget N in 1..K+2 is run: the charged counter must equal K, N > K '
+             'must reproduce the unbounded run, N <= K must raise the ops-limit error at exactly the N-th node evaluation with the effect '
+             'log equal to the unbounded effects before it. Every sequence of <= 2/3 eval calls over one names mapping is judged call by '
+             'call on its own K.',
+        note='trusted: wrapping every Op subclass eval from outside counts node evaluations; probe calls are the host-visible effects',
+        design='4/C01'),
 }
 
 NOT_YET = {}
